@@ -28,7 +28,14 @@ class C11(Check):
             "configurations (no store, empty map, other names, the name with another secret, in another case, without the dot, "
             "undecodable secret, right store, TsigProvider right / other secret / failing) x 5 message kinds (signed, garbage MAC, "
             "unknown key, unknown algorithm, no TSIG): verified iff the independent verifier accepts under the receiver's own "
-            "store, and an error status whenever any store is configured. Model cases: name decoder, stripTsig, tsigBuffer, digest, verify, generate, "
+            "store, and an error status whenever any store is configured. Header-count boundaries: messages of hundreds to thousands of "
+            "tiny root-owner records whose answer/authority/additional counts sit at and around every carry between the low and the "
+            "high octet of the header fields (254..258, 510..513, 256k-1/256k up to 5887 records below 64 KiB, ARCOUNT 65535 above it): "
+            "TsigGenerate output equals octet for octet what an independent RFC 8945 signer builds (ARCOUNT+1 computed as an integer, MAC "
+            "over the message with its original counts), verifies, strips back to the original message and counts, re-parses into the "
+            "original sections; every single-bit and carry-shaped alteration of the four counts and every shift of a section boundary "
+            "fails; the same messages as requests, replies and envelopes through Transfer, Conn, Client and Server (with all tamperings). "
+            "Model cases: name decoder, stripTsig, tsigBuffer, digest, verify, generate, "
             "chain on boundary-directed hand-made octets (both sides of every bounds check) and on sampled alterations; chain and verify "
             "cases whose implementation verdict is the one Transfer.In / Transfer.ReadMsg / Conn.ReadMsg / TsigStatus reported. A case is "
             "non-trivial when its input is longer than a DNS header; distinct by hash of (function, arguments, output).")
